@@ -49,4 +49,914 @@ theorem parseEscapedGo_dot (rest cur : BList) (h : cur ≠ []) :
   | nil => simp [parseEscapedGo, h]
   | cons n r => rw [parseEscapedGo]; simp [h]
 
+/-! ### primitive writers -/
+
+@[simp] theorem writeByte_data (p : OutPacket) (v : UInt8) : (p.writeByte v).data = p.data.push v := by
+  cases p; rfl
+@[simp] theorem writeByte_names (p : OutPacket) (v : UInt8) : (p.writeByte v).names = p.names := by
+  cases p; rfl
+@[simp] theorem writeByte_finished (p : OutPacket) (v : UInt8) : (p.writeByte v).finished = p.finished := by
+  cases p; rfl
+@[simp] theorem writeBytes_data (p : OutPacket) (s : BList) : (p.writeBytes s).data = p.data ++ s.toArray := by
+  cases p; rfl
+@[simp] theorem writeBytes_names (p : OutPacket) (s : BList) : (p.writeBytes s).names = p.names := by
+  cases p; rfl
+@[simp] theorem writeBytes_finished (p : OutPacket) (s : BList) : (p.writeBytes s).finished = p.finished := by
+  cases p; rfl
+@[simp] theorem writeShort_data (p : OutPacket) (v : Nat) : (p.writeShort v).data = p.data ++ (be16 v).toArray := by
+  simp [OutPacket.writeShort]
+@[simp] theorem writeShort_names (p : OutPacket) (v : Nat) : (p.writeShort v).names = p.names := by
+  simp [OutPacket.writeShort]
+@[simp] theorem writeU32_data (p : OutPacket) (v : Nat) : (p.writeU32 v).data = p.data ++ (be32 v).toArray := by
+  simp [OutPacket.writeU32]
+@[simp] theorem writeU32_names (p : OutPacket) (v : Nat) : (p.writeU32 v).names = p.names := by
+  simp [OutPacket.writeU32]
+
+@[simp] theorem be16_length (v : Nat) : (be16 v).length = 2 := rfl
+@[simp] theorem be32_length (v : Nat) : (be32 v).length = 4 := rfl
+
+theorem insertShortData_size (d d' : Data) (i v : Nat) (h : insertShortData d i v = .ok d') : d'.size = d.size := by
+  unfold insertShortData at h
+  split at h
+  · simp only [Res.ok.injEq] at h; subst h; simp
+  · simp at h
+
+theorem insertShortData_ne_err (d : Data) (i v : Nat) : insertShortData d i v ≠ .err := by
+  unfold insertShortData; split <;> simp
+
+theorem insertShort_ok (p p' : OutPacket) (i v : Nat) (h : p.insertShort i v = .ok p') :
+    p'.data.size = p.data.size ∧ p'.names = p.names ∧ p'.finished = p.finished := by
+  cases p with
+  | mk d f ns =>
+    simp only [OutPacket.insertShort] at h
+    cases hd : insertShortData d i v with
+    | ok d' =>
+      simp only [hd, Res.ok.injEq] at h; subst h
+      exact ⟨insertShortData_size d d' i v hd, rfl, rfl⟩
+    | err => simp [hd] at h
+    | panic => simp [hd] at h
+
+theorem insertShort_ne_err (p : OutPacket) (i v : Nat) : p.insertShort i v ≠ .err := by
+  cases p with
+  | mk d f ns =>
+    simp only [OutPacket.insertShort]
+    cases hd : insertShortData d i v with
+    | ok d' => simp
+    | err => exact absurd hd (insertShortData_ne_err d i v)
+    | panic => simp
+
+theorem insertShort_ne_panic (p : OutPacket) (i v : Nat) (h : i + 2 ≤ p.data.size) : p.insertShort i v ≠ .panic := by
+  cases p with
+  | mk d f ns =>
+    simp only [OutPacket.insertShort, insertShortData]
+    simp at h
+    simp [h]
+
+@[simp] theorem writeShort_finished (p : OutPacket) (v : Nat) : (p.writeShort v).finished = p.finished := by
+  simp [OutPacket.writeShort]
+@[simp] theorem writeU32_finished (p : OutPacket) (v : Nat) : (p.writeU32 v).finished = p.finished := by
+  simp [OutPacket.writeU32]
+
+theorem writeUtf8_ok (p p' : OutPacket) (s : BList) (h : p.writeUtf8 s = .ok p') :
+    p'.data = p.data.push (UInt8.ofNat s.length) ++ s.toArray ∧ p'.names = p.names ∧
+    p'.finished = p.finished ∧ s.length < 64 := by
+  unfold OutPacket.writeUtf8 at h
+  split at h
+  · simp only [Res.ok.injEq] at h; subst h; simp [*]
+  · simp at h
+
+theorem writeLabels_ne_err (p : OutPacket) (ls : List BList) : writeLabels p ls ≠ .err := by
+  induction ls generalizing p with
+  | nil => simp [writeLabels]
+  | cons l rest ih =>
+    simp only [writeLabels]
+    split
+    · simp
+    · split
+      · exact ih _
+      · rename_i h; simp [OutPacket.writeUtf8] at h; split at h <;> simp at h
+      · simp
+
+theorem writeLabels_ne_panic (p : OutPacket) (ls : List BList) (hl : ∀ l ∈ ls, l.length < 64) :
+    writeLabels p ls ≠ .panic := by
+  induction ls generalizing p with
+  | nil => simp [writeLabels]
+  | cons l rest ih =>
+    simp only [writeLabels]
+    split
+    · simp
+    · split
+      · exact ih _ (fun x hx => hl x (List.mem_cons_of_mem _ hx))
+      · simp
+      · rename_i h
+        have := hl l (List.mem_cons_self)
+        simp [OutPacket.writeUtf8, this] at h
+
+theorem writeLabels_ok (p p' : OutPacket) (ls : List BList) (h : writeLabels p ls = .ok p') :
+    p.data.size < p'.data.size ∧ p'.finished = p.finished := by
+  induction ls generalizing p p' with
+  | nil =>
+    simp only [writeLabels, Res.ok.injEq] at h; subst h; simp
+  | cons l rest ih =>
+    simp only [writeLabels] at h
+    split at h
+    · simp only [Res.ok.injEq] at h; subst h; simp
+    · split at h
+      · rename_i p1 hu
+        have h1 := writeUtf8_ok _ _ _ hu
+        have h2 := ih _ _ h
+        simp only [h1.1, Array.size_append, Array.size_push, List.size_toArray] at h2
+        refine ⟨by omega, ?_⟩
+        rw [h2.2, h1.2.2.1]
+      · simp at h
+      · simp at h
+
+/-- every label of the textual name fits the length byte (`write_utf8` does not assert) -/
+def NameOK (name : BList) : Prop := ∀ l ∈ labelsOf name, l.length < 64
+
+def RDataOK : Wire.RData → Prop
+  | .ptr n => NameOK n
+  | .srv _ _ _ h => NameOK h
+  | _ => True
+
+def RecOK (r : RecIn) : Prop := NameOK r.name ∧ RDataOK r.rdata
+
+theorem writeName_ne_err (p : OutPacket) (n : BList) : p.writeName n ≠ .err := writeLabels_ne_err _ _
+theorem writeName_ne_panic (p : OutPacket) (n : BList) (h : NameOK n) : p.writeName n ≠ .panic :=
+  writeLabels_ne_panic _ _ h
+theorem writeName_ok (p p' : OutPacket) (n : BList) (h : p.writeName n = .ok p') :
+    p.data.size < p'.data.size ∧ p'.finished = p.finished := writeLabels_ok _ _ _ h
+
+theorem writeRData_ne_err (p : OutPacket) (rd : Wire.RData) : p.writeRData rd ≠ .err := by
+  cases rd <;> simp [OutPacket.writeRData, writeName_ne_err]
+
+theorem writeRData_ne_panic (p : OutPacket) (rd : Wire.RData) (h : RDataOK rd) : p.writeRData rd ≠ .panic := by
+  cases rd <;> simp [OutPacket.writeRData] <;> exact writeName_ne_panic _ _ h
+
+theorem writeRData_ok (p p' : OutPacket) (rd : Wire.RData) (h : p.writeRData rd = .ok p') :
+    p.data.size ≤ p'.data.size ∧ p'.finished = p.finished := by
+  cases rd <;> simp only [OutPacket.writeRData, Res.ok.injEq] at h
+  case ptr n => have := writeName_ok _ _ _ h; exact ⟨by omega, this.2⟩
+  case srv a b c n =>
+    have := writeName_ok _ _ _ h
+    simp at this
+    exact ⟨by omega, this.2⟩
+  all_goals (subst h; simp)
+
+theorem writeRecordBody_ne_err (p : OutPacket) (r : RecIn) (ttl : Nat) : p.writeRecordBody r ttl ≠ .err := by
+  simp only [OutPacket.writeRecordBody]
+  split
+  · rename_i h; exact absurd h (writeRData_ne_err _ _)
+  · simp
+  · exact insertShort_ne_err _ _ _
+
+theorem writeRecordBody_ne_panic (p : OutPacket) (r : RecIn) (ttl : Nat) (h : RDataOK r.rdata) :
+    p.writeRecordBody r ttl ≠ .panic := by
+  simp only [OutPacket.writeRecordBody]
+  split
+  · simp
+  · rename_i h'; exact absurd h' (writeRData_ne_panic _ _ h)
+  · rename_i p6 h6
+    have := (writeRData_ok _ _ _ h6).1
+    apply insertShort_ne_panic
+    simp at this ⊢
+    omega
+
+theorem writeRecordBody_ok (p p' : OutPacket) (r : RecIn) (ttl : Nat) (h : p.writeRecordBody r ttl = .ok p') :
+    p.data.size + 10 ≤ p'.data.size ∧ p'.finished = p.finished := by
+  simp only [OutPacket.writeRecordBody] at h
+  split at h
+  · simp at h
+  · simp at h
+  · rename_i p6 h6
+    have h1 := writeRData_ok _ _ _ h6
+    have h2 := insertShort_ok _ _ _ _ h
+    simp at h1
+    refine ⟨by omega, ?_⟩
+    rw [h2.2.2, h1.2]
+
+@[simp] theorem rollback_data (p : OutPacket) (n : Nat) : (p.rollback n).data = p.data.extract 0 n := by
+  cases p; rfl
+@[simp] theorem rollback_names (p : OutPacket) (n : Nat) :
+    (p.rollback n).names = p.names.filter (fun e => e.2 < n) := by
+  cases p; rfl
+
+theorem remainingTtl_ne_err (r : RecIn) (now : Nat) : remainingTtl r now ≠ .err := by
+  unfold remainingTtl; split <;> simp
+
+theorem writeRecord_ne_err (p : OutPacket) (r : RecIn) (now : Nat) : p.writeRecord r now ≠ .err := by
+  simp only [OutPacket.writeRecord]
+  split
+  · rename_i h; exact absurd h (writeName_ne_err _ _)
+  · simp
+  · split
+    · rename_i h
+      split at h
+      · simp at h
+      · exact absurd h (remainingTtl_ne_err _ _)
+    · simp
+    · split
+      · rename_i h; exact absurd h (writeRecordBody_ne_err _ _ _)
+      · simp
+      · split <;> simp
+
+theorem writeRecord_ne_panic (p : OutPacket) (r : RecIn) (now : Nat) (h : RecOK r)
+    (hn : now = 0 ∨ now ≤ expires r) : p.writeRecord r now ≠ .panic := by
+  simp only [OutPacket.writeRecord]
+  split
+  · simp
+  · rename_i h'; exact absurd h' (writeName_ne_panic _ _ h.1)
+  · split
+    · simp
+    · rename_i h'
+      split at h'
+      · simp at h'
+      · rename_i hne
+        have : now ≤ expires r := by rcases hn with h0 | h0; exact absurd h0 hne; exact h0
+        simp [remainingTtl] at h'
+        omega
+    · split
+      · simp
+      · rename_i h'; exact absurd h' (writeRecordBody_ne_panic _ _ _ h.2)
+      · split <;> simp
+
+/-- what `write_record` does to the size of the packet -/
+theorem writeRecord_ok (p p' : OutPacket) (r : RecIn) (now : Nat) (b : Bool)
+    (h : p.writeRecord r now = .ok (p', b)) :
+    (b = true → p.data.size + 11 ≤ p'.data.size ∧ p'.data.size ≤ MAX_MSG_ABSOLUTE) ∧
+    (b = false → p'.data.size = p.data.size) := by
+  simp only [OutPacket.writeRecord] at h
+  split at h
+  · simp at h
+  · simp at h
+  · rename_i p1 h1
+    have s1 := (writeName_ok _ _ _ h1).1
+    split at h
+    · simp at h
+    · simp at h
+    · rename_i ttl ht
+      split at h
+      · simp at h
+      · simp at h
+      · rename_i p7 h7
+        have s7 := (writeRecordBody_ok _ _ _ _ h7).1
+        split at h
+        · simp only [Res.ok.injEq, Prod.mk.injEq] at h
+          obtain ⟨rfl, rfl⟩ := h
+          simp
+          omega
+        · simp only [Res.ok.injEq, Prod.mk.injEq] at h
+          obtain ⟨rfl, rfl⟩ := h
+          simp
+          omega
+
+
+theorem u16_insertShortData (d d' : Data) (i v : Nat) (h : insertShortData d i v = .ok d') :
+    Ref.u16 d' i = some (v % 65536) := by
+  unfold insertShortData at h
+  split at h
+  · rename_i hi
+    simp only [Res.ok.injEq] at h; subst h
+    have h1 : i < d.size := by omega
+    have h2 : i + 1 < d.size := by omega
+    simp [Ref.u16, h1, h2]
+    omega
+  · simp at h
+
+theorem u16_insertShortData_other (d d' : Data) (i v j : Nat) (h : insertShortData d i v = .ok d')
+    (hj : j + 2 ≤ i ∨ i + 2 ≤ j) : Ref.u16 d' j = Ref.u16 d j := by
+  unfold insertShortData at h
+  split at h
+  · simp only [Res.ok.injEq] at h; subst h
+    have a1 : ¬ i = j := by omega
+    have a2 : ¬ i + 1 = j := by omega
+    have a3 : ¬ i = j + 1 := by omega
+    simp [Ref.u16, a1, a2, a3]
+  · simp at h
+
+theorem insertShort_data (p p' : OutPacket) (i v : Nat) (h : p.insertShort i v = .ok p') :
+    insertShortData p.data i v = .ok p'.data := by
+  cases p with
+  | mk d f ns =>
+    simp only [OutPacket.insertShort] at h
+    cases hd : insertShortData d i v with
+    | ok d' => simp only [hd, Res.ok.injEq] at h; subst h; rfl
+    | err => simp [hd] at h
+    | panic => simp [hd] at h
+
+theorem u16_insertShort (p p' : OutPacket) (i v : Nat) (h : p.insertShort i v = .ok p') :
+    Ref.u16 p'.data i = some (v % 65536) := u16_insertShortData _ _ _ _ (insertShort_data _ _ _ _ h)
+
+theorem u16_insertShort_other (p p' : OutPacket) (i v j : Nat) (h : p.insertShort i v = .ok p')
+    (hj : j + 2 ≤ i ∨ i + 2 ≤ j) : Ref.u16 p'.data j = Ref.u16 p.data j :=
+  u16_insertShortData_other _ _ _ _ _ (insertShort_data _ _ _ _ h) hj
+
+/-- the six header fields as the reference reader sees them -/
+structure HeaderIs (d : Data) (id flags qc anc auc adc : Nat) : Prop where
+  id : Ref.u16 d 0 = some (id % 65536)
+  flags : Ref.u16 d 2 = some (flags % 65536)
+  qc : Ref.u16 d 4 = some (qc % 65536)
+  anc : Ref.u16 d 6 = some (anc % 65536)
+  auc : Ref.u16 d 8 = some (auc % 65536)
+  adc : Ref.u16 d 10 = some (adc % 65536)
+
+theorem writeHeader_ne_err (p : OutPacket) (id flags qc anc auc adc : Nat) :
+    p.writeHeader id flags qc anc auc adc ≠ .err := by
+  simp only [OutPacket.writeHeader]
+  repeat (first | (split; (rename_i h; exact absurd h (insertShort_ne_err _ _ _))) | simp | split)
+
+
+theorem writeHeader_ok (p p' : OutPacket) (id flags qc anc auc adc : Nat)
+    (h : p.writeHeader id flags qc anc auc adc = .ok p') :
+    p'.data.size = p.data.size ∧ HeaderIs p'.data id flags qc anc auc adc := by
+  simp only [OutPacket.writeHeader] at h
+  cases h0 : p.insertShort 0 id with
+  | err => simp [h0] at h
+  | panic => simp [h0] at h
+  | ok p0 =>
+  simp only [h0] at h
+  cases h1 : p0.insertShort 2 flags with
+  | err => simp [h1] at h
+  | panic => simp [h1] at h
+  | ok p1 =>
+  simp only [h1] at h
+  cases h2 : p1.insertShort 4 qc with
+  | err => simp [h2] at h
+  | panic => simp [h2] at h
+  | ok p2 =>
+  simp only [h2] at h
+  cases h3 : p2.insertShort 6 anc with
+  | err => simp [h3] at h
+  | panic => simp [h3] at h
+  | ok p3 =>
+  simp only [h3] at h
+  cases h4 : p3.insertShort 8 auc with
+  | err => simp [h4] at h
+  | panic => simp [h4] at h
+  | ok p4 =>
+  simp only [h4] at h
+  cases h5 : p4.insertShort 10 adc with
+  | err => simp [h5] at h
+  | panic => simp [h5] at h
+  | ok p5 =>
+  simp only [h5, Res.ok.injEq] at h
+  subst h
+  have s0 := (insertShort_ok _ _ _ _ h0).1
+  have s1 := (insertShort_ok _ _ _ _ h1).1
+  have s2 := (insertShort_ok _ _ _ _ h2).1
+  have s3 := (insertShort_ok _ _ _ _ h3).1
+  have s4 := (insertShort_ok _ _ _ _ h4).1
+  have s5 := (insertShort_ok _ _ _ _ h5).1
+  refine ⟨by simp; omega, ?_, ?_, ?_, ?_, ?_, ?_⟩ <;> simp only []
+  · rw [u16_insertShort_other _ _ _ _ 0 h5 (by omega), u16_insertShort_other _ _ _ _ 0 h4 (by omega),
+      u16_insertShort_other _ _ _ _ 0 h3 (by omega), u16_insertShort_other _ _ _ _ 0 h2 (by omega),
+      u16_insertShort_other _ _ _ _ 0 h1 (by omega)]
+    exact u16_insertShort _ _ _ _ h0
+  · rw [u16_insertShort_other _ _ _ _ 2 h5 (by omega), u16_insertShort_other _ _ _ _ 2 h4 (by omega),
+      u16_insertShort_other _ _ _ _ 2 h3 (by omega), u16_insertShort_other _ _ _ _ 2 h2 (by omega)]
+    exact u16_insertShort _ _ _ _ h1
+  · rw [u16_insertShort_other _ _ _ _ 4 h5 (by omega), u16_insertShort_other _ _ _ _ 4 h4 (by omega),
+      u16_insertShort_other _ _ _ _ 4 h3 (by omega)]
+    exact u16_insertShort _ _ _ _ h2
+  · rw [u16_insertShort_other _ _ _ _ 6 h5 (by omega), u16_insertShort_other _ _ _ _ 6 h4 (by omega)]
+    exact u16_insertShort _ _ _ _ h3
+  · rw [u16_insertShort_other _ _ _ _ 8 h5 (by omega)]
+    exact u16_insertShort _ _ _ _ h4
+  · exact u16_insertShort _ _ _ _ h5
+
+theorem writeHeader_ne_panic (p : OutPacket) (id flags qc anc auc adc : Nat) (hs : 12 ≤ p.data.size) :
+    p.writeHeader id flags qc anc auc adc ≠ .panic := by
+  simp only [OutPacket.writeHeader]
+  cases h0 : p.insertShort 0 id with
+  | err => simp
+  | panic => exact absurd h0 (insertShort_ne_panic _ _ _ (by omega))
+  | ok p0 =>
+  have s0 := (insertShort_ok _ _ _ _ h0).1
+  simp only []
+  cases h1 : p0.insertShort 2 flags with
+  | err => simp
+  | panic => exact absurd h1 (insertShort_ne_panic _ _ _ (by omega))
+  | ok p1 =>
+  have s1 := (insertShort_ok _ _ _ _ h1).1
+  simp only []
+  cases h2 : p1.insertShort 4 qc with
+  | err => simp
+  | panic => exact absurd h2 (insertShort_ne_panic _ _ _ (by omega))
+  | ok p2 =>
+  have s2 := (insertShort_ok _ _ _ _ h2).1
+  simp only []
+  cases h3 : p2.insertShort 6 anc with
+  | err => simp
+  | panic => exact absurd h3 (insertShort_ne_panic _ _ _ (by omega))
+  | ok p3 =>
+  have s3 := (insertShort_ok _ _ _ _ h3).1
+  simp only []
+  cases h4 : p3.insertShort 8 auc with
+  | err => simp
+  | panic => exact absurd h4 (insertShort_ne_panic _ _ _ (by omega))
+  | ok p4 =>
+  have s4 := (insertShort_ok _ _ _ _ h4).1
+  simp only []
+  cases h5 : p4.insertShort 10 adc with
+  | err => simp
+  | panic => exact absurd h5 (insertShort_ne_panic _ _ _ (by omega))
+  | ok p5 => simp
+
+theorem writeQuestion_ne_err (p : OutPacket) (q : QIn) : p.writeQuestion q ≠ .err := by
+  simp only [OutPacket.writeQuestion]
+  split
+  · simp
+  · rename_i h; exact absurd h (writeName_ne_err _ _)
+  · simp
+
+theorem writeQuestion_ne_panic (p : OutPacket) (q : QIn) (h : NameOK q.name) : p.writeQuestion q ≠ .panic := by
+  simp only [OutPacket.writeQuestion]
+  split
+  · simp
+  · simp
+  · rename_i h'; exact absurd h' (writeName_ne_panic _ _ h)
+
+theorem writeQuestion_ok (p p' : OutPacket) (q : QIn) (h : p.writeQuestion q = .ok p') :
+    p.data.size + 5 ≤ p'.data.size := by
+  simp only [OutPacket.writeQuestion] at h
+  split at h
+  · rename_i p1 h1
+    have := (writeName_ok _ _ _ h1).1
+    simp only [Res.ok.injEq] at h; subst h
+    simp; omega
+  · simp at h
+  · simp at h
+
+theorem writeQuestions_ne_err (p : OutPacket) (qs : List QIn) : writeQuestions p qs ≠ .err := by
+  induction qs generalizing p with
+  | nil => simp [writeQuestions]
+  | cons q qs ih =>
+    simp only [writeQuestions]
+    split
+    · exact ih _
+    · rename_i h; exact absurd h (writeQuestion_ne_err _ _)
+    · simp
+
+theorem writeQuestions_ne_panic (p : OutPacket) (qs : List QIn) (h : ∀ q ∈ qs, NameOK q.name) :
+    writeQuestions p qs ≠ .panic := by
+  induction qs generalizing p with
+  | nil => simp [writeQuestions]
+  | cons q qs ih =>
+    simp only [writeQuestions]
+    split
+    · exact ih _ (fun x hx => h x (List.mem_cons_of_mem _ hx))
+    · simp
+    · rename_i h'; exact absurd h' (writeQuestion_ne_panic _ _ (h q List.mem_cons_self))
+
+theorem writeQuestions_ok (p p' : OutPacket) (qs : List QIn) (h : writeQuestions p qs = .ok p') :
+    p.data.size ≤ p'.data.size := by
+  induction qs generalizing p with
+  | nil => simp only [writeQuestions, Res.ok.injEq] at h; subst h; exact Nat.le_refl _
+  | cons q qs ih =>
+    simp only [writeQuestions] at h
+    split at h
+    · rename_i p1 h1
+      have := writeQuestion_ok _ _ _ h1
+      have := ih _ h
+      omega
+    · simp at h
+    · simp at h
+
+/-! ### answers and authorities -/
+
+theorem writeAnswers_ne_err (p : OutPacket) (c : Nat) (w as : List (RecIn × Nat)) :
+    writeAnswers p c w as ≠ .err := by
+  induction as generalizing p c w with
+  | nil => simp [writeAnswers]
+  | cons a as ih =>
+    obtain ⟨r, now⟩ := a
+    simp only [writeAnswers]
+    split
+    · exact ih _ _ _
+    · exact ih _ _ _
+    · rename_i h; exact absurd h (writeRecord_ne_err _ _ _)
+    · simp
+
+/-- an answer can be written without the TTL subtraction underflowing -/
+def AnsOK (a : RecIn × Nat) : Prop := RecOK a.1 ∧ (a.2 = 0 ∨ a.2 ≤ expires a.1)
+
+theorem writeAnswers_ne_panic (p : OutPacket) (c : Nat) (w as : List (RecIn × Nat))
+    (h : ∀ a ∈ as, AnsOK a) : writeAnswers p c w as ≠ .panic := by
+  induction as generalizing p c w with
+  | nil => simp [writeAnswers]
+  | cons a as ih =>
+    obtain ⟨r, now⟩ := a
+    have ht := fun x hx => h x (List.mem_cons_of_mem _ hx)
+    simp only [writeAnswers]
+    split
+    · exact ih _ _ _ ht
+    · exact ih _ _ _ ht
+    · simp
+    · rename_i h'
+      have := h (r, now) List.mem_cons_self
+      exact absurd h' (writeRecord_ne_panic _ _ _ this.1 this.2)
+
+theorem writeAnswers_ok (p p' : OutPacket) (c c' : Nat) (w w' as : List (RecIn × Nat))
+    (h : writeAnswers p c w as = .ok (p', c', w')) :
+    p.data.size ≤ p'.data.size ∧
+    (∀ B, MAX_MSG_ABSOLUTE ≤ B → p.data.size ≤ B → p'.data.size ≤ B) ∧
+    c' + w.length = c + w'.length ∧ ∃ s, w' = w ++ s ∧ s.Sublist as := by
+  induction as generalizing p c w with
+  | nil =>
+    simp only [writeAnswers, Res.ok.injEq, Prod.mk.injEq] at h
+    obtain ⟨rfl, rfl, rfl⟩ := h
+    exact ⟨Nat.le_refl _, fun _ _ h => h, rfl, [], by simp, List.Sublist.refl _⟩
+  | cons a as ih =>
+    obtain ⟨r, now⟩ := a
+    simp only [writeAnswers] at h
+    split at h
+    · rename_i p1 h1
+      have s := (writeRecord_ok _ _ _ _ _ h1).1 rfl
+      obtain ⟨i1, i2, i3, s', i4, i5⟩ := ih _ _ _ h
+      refine ⟨by omega, fun B hB hp => i2 B hB (by omega), ?_, (r, now) :: s', ?_, ?_⟩
+      · simp at i3; omega
+      · simp [i4]
+      · exact List.Sublist.cons_cons _ i5
+    · rename_i p1 h1
+      have s := (writeRecord_ok _ _ _ _ _ h1).2 rfl
+      obtain ⟨i1, i2, i3, s', i4, i5⟩ := ih _ _ _ h
+      refine ⟨by omega, fun B hB hp => i2 B hB (by omega), i3, s', i4, ?_⟩
+      exact List.Sublist.cons _ i5
+    · simp at h
+    · simp at h
+
+theorem writeAuthorities_ne_err (p : OutPacket) (c : Nat) (w as : List RecIn) :
+    writeAuthorities p c w as ≠ .err := by
+  induction as generalizing p c w with
+  | nil => simp [writeAuthorities]
+  | cons r as ih =>
+    simp only [writeAuthorities]
+    split
+    · exact ih _ _ _
+    · exact ih _ _ _
+    · rename_i h; exact absurd h (writeRecord_ne_err _ _ _)
+    · simp
+
+theorem writeAuthorities_ne_panic (p : OutPacket) (c : Nat) (w as : List RecIn)
+    (h : ∀ r ∈ as, RecOK r) : writeAuthorities p c w as ≠ .panic := by
+  induction as generalizing p c w with
+  | nil => simp [writeAuthorities]
+  | cons r as ih =>
+    have ht := fun x hx => h x (List.mem_cons_of_mem _ hx)
+    simp only [writeAuthorities]
+    split
+    · exact ih _ _ _ ht
+    · exact ih _ _ _ ht
+    · simp
+    · rename_i h'
+      exact absurd h' (writeRecord_ne_panic _ _ _ (h r List.mem_cons_self) (Or.inl rfl))
+
+theorem writeAuthorities_ok (p p' : OutPacket) (c c' : Nat) (w w' as : List RecIn)
+    (h : writeAuthorities p c w as = .ok (p', c', w')) :
+    p.data.size ≤ p'.data.size ∧
+    (∀ B, MAX_MSG_ABSOLUTE ≤ B → p.data.size ≤ B → p'.data.size ≤ B) ∧
+    c' + w.length = c + w'.length ∧ ∃ s, w' = w ++ s ∧ s.Sublist as := by
+  induction as generalizing p c w with
+  | nil =>
+    simp only [writeAuthorities, Res.ok.injEq, Prod.mk.injEq] at h
+    obtain ⟨rfl, rfl, rfl⟩ := h
+    exact ⟨Nat.le_refl _, fun _ _ h => h, rfl, [], by simp, List.Sublist.refl _⟩
+  | cons r as ih =>
+    simp only [writeAuthorities] at h
+    split at h
+    · rename_i p1 h1
+      have s := (writeRecord_ok _ _ _ _ _ h1).1 rfl
+      obtain ⟨i1, i2, i3, s', i4, i5⟩ := ih _ _ _ h
+      refine ⟨by omega, fun B hB hp => i2 B hB (by omega), ?_, r :: s', ?_, ?_⟩
+      · simp at i3; omega
+      · simp [i4]
+      · exact List.Sublist.cons_cons _ i5
+    · rename_i p1 h1
+      have s := (writeRecord_ok _ _ _ _ _ h1).2 rfl
+      obtain ⟨i1, i2, i3, s', i4, i5⟩ := ih _ _ _ h
+      refine ⟨by omega, fun B hB hp => i2 B hB (by omega), i3, s', i4, ?_⟩
+      exact List.Sublist.cons _ i5
+    · simp at h
+    · simp at h
+
+/-! ### the fourth loop -/
+
+/-- the header of a finished packet agrees with the ghost lists of what it carries -/
+def CountsOK (p : Packet) : Prop :=
+  Ref.u16 p.data 4 = some (p.ghost.qs.length % 65536) ∧
+  Ref.u16 p.data 6 = some (p.ghost.an.length % 65536) ∧
+  Ref.u16 p.data 8 = some (p.ghost.au.length % 65536) ∧
+  Ref.u16 p.data 10 = some (p.ghost.ad.length % 65536)
+
+/-- a finished packet: counts, size between 12 and `B`, id, flags (with TC iff `tc`) -/
+def PktOK (o : OutMsg) (id B : Nat) (tc : Bool) (p : Packet) : Prop :=
+  CountsOK p ∧ 12 ≤ p.data.size ∧ p.data.size ≤ B ∧
+  Ref.u16 p.data 0 = some (id % 65536) ∧
+  Ref.u16 p.data 2 = some ((if tc then o.flags ||| FLAGS_TC else o.flags) % 65536)
+
+structure StInv (B : Nat) (st : LoopSt) : Prop where
+  lo : 12 ≤ st.packet.data.size
+  hi : st.packet.data.size ≤ B
+  qc : st.qc % 65536 = st.ghost.qs.length % 65536
+  anc : st.anc = st.ghost.an.length
+  auc : st.auc = st.ghost.au.length
+  adc : st.adc = st.ghost.ad.length
+
+theorem finish_ne_err (o : OutMsg) (id : Nat) (st : LoopSt) : finish o id st ≠ .err := by
+  simp only [finish]
+  split
+  · simp
+  · rename_i h; exact absurd h (writeHeader_ne_err _ _ _ _ _ _ _)
+  · simp
+
+theorem finish_ne_panic (o : OutMsg) (id : Nat) (st : LoopSt) (h : 12 ≤ st.packet.data.size) :
+    finish o id st ≠ .panic := by
+  simp only [finish]
+  split
+  · simp
+  · simp
+  · rename_i h'; exact absurd h' (writeHeader_ne_panic _ _ _ _ _ _ _ h)
+
+theorem finish_ok (o : OutMsg) (id B : Nat) (st : LoopSt) (ps : List Packet) (h : finish o id st = .ok ps)
+    (inv : StInv B st) :
+    ∃ last, ps = st.done ++ [last] ∧ last.ghost = st.ghost ∧ PktOK o id B false last := by
+  simp only [finish] at h
+  split at h
+  · rename_i p hp
+    simp only [Res.ok.injEq] at h
+    obtain ⟨hs, hh⟩ := writeHeader_ok _ _ _ _ _ _ _ _ hp
+    refine ⟨_, h.symm, rfl, ⟨?_, ?_, ?_, ?_⟩, ?_, ?_, hh.id, ?_⟩
+    · simp only []; rw [hh.qc, inv.qc]
+    · simp only []; rw [hh.anc, inv.anc]
+    · simp only []; rw [hh.auc, inv.auc]
+    · simp only []; rw [hh.adc, inv.adc]
+    · simp only []; rw [hs]; exact inv.lo
+    · simp only []; rw [hs]; exact inv.hi
+    · simpa using hh.flags
+  · simp at h
+  · simp at h
+
+@[simp] theorem new_size : OutPacket.new.data.size = 12 := by simp [OutPacket.new]
+
+theorem writeAdditionals_ne_err (o : OutMsg) (id : Nat) (st : LoopSt) (rs : List RecIn) :
+    writeAdditionals o id st rs ≠ .err := by
+  induction rs generalizing st with
+  | nil => simp only [writeAdditionals]; exact finish_ne_err _ _ _
+  | cons r rest ih =>
+    simp only [writeAdditionals]
+    split
+    · rename_i h; exact absurd h (writeRecord_ne_err _ _ _)
+    · simp
+    · exact ih _
+    · split
+      · exact finish_ne_err _ _ _
+      · split
+        · rename_i h; exact absurd h (writeHeader_ne_err _ _ _ _ _ _ _)
+        · simp
+        · split
+          · rename_i h; exact absurd h (writeRecord_ne_err _ _ _)
+          · simp
+          · exact ih _
+
+theorem writeAdditionals_ne_panic (o : OutMsg) (id : Nat) (st : LoopSt) (rs : List RecIn)
+    (h : ∀ r ∈ rs, RecOK r) (hs : 12 ≤ st.packet.data.size) :
+    writeAdditionals o id st rs ≠ .panic := by
+  induction rs generalizing st with
+  | nil => simp only [writeAdditionals]; exact finish_ne_panic _ _ _ hs
+  | cons r rest ih =>
+    have ht := fun x hx => h x (List.mem_cons_of_mem _ hx)
+    have hr := h r List.mem_cons_self
+    simp only [writeAdditionals]
+    split
+    · simp
+    · rename_i h'; exact absurd h' (writeRecord_ne_panic _ _ _ hr (Or.inl rfl))
+    · rename_i p' h1
+      have := (writeRecord_ok _ _ _ _ _ h1).1 rfl
+      exact ih _ ht (by simp only []; omega)
+    · rename_i p' h1
+      have s1 := (writeRecord_ok _ _ _ _ _ h1).2 rfl
+      split
+      · exact finish_ne_panic _ _ _ (by simp only []; omega)
+      · split
+        · simp
+        · rename_i h'; exact absurd h' (writeHeader_ne_panic _ _ _ _ _ _ _ (by omega))
+        · split
+          · simp
+          · rename_i h'; exact absurd h' (writeRecord_ne_panic _ _ _ hr (Or.inl rfl))
+          · rename_i p2 b h2
+            apply ih _ ht
+            simp only []
+            have := writeRecord_ok _ _ _ _ _ h2
+            cases b
+            · have := this.2 rfl; simp at this; omega
+            · have := this.1 rfl; simp at this; omega
+
+theorem writeAdditionals_ok (o : OutMsg) (id B : Nat) (st : LoopSt) (rs : List RecIn) (ps : List Packet)
+    (hB : MAX_MSG_ABSOLUTE ≤ B) (h : writeAdditionals o id st rs = .ok ps) (inv : StInv B st)
+    (hd : ∀ p ∈ st.done, PktOK o id B true p) :
+    ∃ init last, ps = init ++ [last] ∧ (∀ p ∈ init, PktOK o id B true p) ∧ PktOK o id B false last := by
+  induction rs generalizing st with
+  | nil =>
+    simp only [writeAdditionals] at h
+    obtain ⟨last, e, _, hl⟩ := finish_ok _ _ _ _ _ h inv
+    exact ⟨st.done, last, e, hd, hl⟩
+  | cons r rest ih =>
+    simp only [writeAdditionals] at h
+    split at h
+    · simp at h
+    · simp at h
+    · rename_i p' h1
+      have s1 := (writeRecord_ok _ _ _ _ _ h1).1 rfl
+      refine ih _ h ⟨?_, ?_, inv.qc, inv.anc, inv.auc, ?_⟩ hd
+      · have := inv.lo; simp only []; omega
+      · simp only []; omega
+      · simp [inv.adc]
+    · rename_i p' h1
+      have s1 := (writeRecord_ok _ _ _ _ _ h1).2 rfl
+      split at h
+      · obtain ⟨last, e, _, hl⟩ := finish_ok o id B _ _ h
+          ⟨by have := inv.lo; simp only []; omega, by have := inv.hi; simp only []; omega,
+            inv.qc, inv.anc, inv.auc, inv.adc⟩
+        exact ⟨st.done, last, e, hd, hl⟩
+      · split at h
+        · simp at h
+        · simp at h
+        · rename_i full hf
+          obtain ⟨hs, hh⟩ := writeHeader_ok _ _ _ _ _ _ _ _ hf
+          split at h
+          · simp at h
+          · simp at h
+          · rename_i p2 b h2
+            have s2 := writeRecord_ok _ _ _ _ _ h2
+            refine ih _ h ⟨?_, ?_, ?_, rfl, rfl, ?_⟩ ?_
+            · simp only []
+              cases b
+              · have := s2.2 rfl; simp at this; omega
+              · have := s2.1 rfl; simp at this; omega
+            · simp only []
+              cases b
+              · have := s2.2 rfl; simp at this; simp only [MAX_MSG_ABSOLUTE] at hB; omega
+              · have := s2.1 rfl; omega
+            · simp
+            · cases b <;> simp
+            · intro p hp
+              simp only [List.mem_append, List.mem_singleton] at hp
+              rcases hp with hp | rfl
+              · exact hd p hp
+              · refine ⟨⟨?_, ?_, ?_, ?_⟩, ?_, ?_, hh.id, ?_⟩
+                · simp only []; rw [hh.qc, inv.qc]
+                · simp only []; rw [hh.anc, inv.anc]
+                · simp only []; rw [hh.auc, inv.auc]
+                · simp only []; rw [hh.adc, inv.adc]
+                · have := inv.lo; simp only []; omega
+                · have := inv.hi; simp only []; omega
+                · simpa using hh.flags
+
+theorem finish_ghost (o : OutMsg) (id : Nat) (st : LoopSt) (ps : List Packet) (h : finish o id st = .ok ps) :
+    ∃ last, ps = st.done ++ [last] ∧ last.ghost = st.ghost := by
+  simp only [finish] at h
+  split at h
+  · simp only [Res.ok.injEq] at h; exact ⟨_, h.symm, rfl⟩
+  · simp at h
+  · simp at h
+
+/-- what the packets of the fourth loop carry, section by section -/
+theorem writeAdditionals_ghost (o : OutMsg) (id : Nat) (st : LoopSt) (rs : List RecIn) (ps : List Packet)
+    (h : writeAdditionals o id st rs = .ok ps) :
+    ps.flatMap (·.ghost.qs) = st.done.flatMap (·.ghost.qs) ++ st.ghost.qs ∧
+    ps.flatMap (·.ghost.an) = st.done.flatMap (·.ghost.an) ++ st.ghost.an ∧
+    ps.flatMap (·.ghost.au) = st.done.flatMap (·.ghost.au) ++ st.ghost.au ∧
+    ∃ s, ps.flatMap (·.ghost.ad) = st.done.flatMap (·.ghost.ad) ++ st.ghost.ad ++ s ∧ s.Sublist rs := by
+  induction rs generalizing st with
+  | nil =>
+    simp only [writeAdditionals] at h
+    obtain ⟨last, rfl, hl⟩ := finish_ghost _ _ _ _ h
+    simp [hl]
+  | cons r rest ih =>
+    simp only [writeAdditionals] at h
+    split at h
+    · simp at h
+    · simp at h
+    · obtain ⟨i1, i2, i3, s, i4, i5⟩ := ih _ h
+      refine ⟨i1, i2, i3, r :: s, ?_, List.Sublist.cons_cons _ i5⟩
+      simp only [] at i4
+      simp [i4]
+    · split at h
+      · obtain ⟨last, rfl, hl⟩ := finish_ghost _ _ _ _ h
+        simp only [] at hl
+        refine ⟨by simp [hl], by simp [hl], by simp [hl], [], by simp [hl], List.nil_sublist _⟩
+      · split at h
+        · simp at h
+        · simp at h
+        · split at h
+          · simp at h
+          · simp at h
+          · rename_i p2 b h2
+            obtain ⟨i1, i2, i3, s, i4, i5⟩ := ih _ h
+            simp only [List.flatMap_append, List.flatMap_cons, List.flatMap_nil, List.append_nil] at i1 i2 i3 i4
+            refine ⟨by simpa using i1, by simpa using i2, by simpa using i3, ?_⟩
+            cases b
+            · exact ⟨s, by simpa using i4, List.Sublist.cons _ i5⟩
+            · exact ⟨r :: s, by simpa using i4, List.Sublist.cons_cons _ i5⟩
+
+instance (n : BList) : Decidable (NameOK n) := by unfold NameOK; infer_instance
+instance (rd : Wire.RData) : Decidable (RDataOK rd) := by
+  cases rd <;> simp only [RDataOK] <;> infer_instance
+instance (r : RecIn) : Decidable (RecOK r) := by unfold RecOK; infer_instance
+instance (a : RecIn × Nat) : Decidable (AnsOK a) := by unfold AnsOK; infer_instance
+
+/-- The domain in which the encoder cannot panic: every label of every name (owner names,
+    PTR and SRV targets) has at most 63 bytes, and an answer added with `now ≠ 0` is not
+    past its expiry (which `add_answer_at_time` guarantees). -/
+def MsgOK (o : OutMsg) : Prop :=
+  (∀ q ∈ o.questions, NameOK q.name) ∧ (∀ a ∈ o.answers, AnsOK a) ∧
+  (∀ r ∈ o.authorities, RecOK r) ∧ (∀ r ∈ o.additionals, RecOK r)
+
+instance (o : OutMsg) : Decidable (MsgOK o) := by unfold MsgOK; infer_instance
+
+/-- the id written into every header -/
+def wireId (o : OutMsg) : Nat := if o.multicast then 0 else o.id
+
+/-- size of the packet after the question loop (12 if there are no questions) -/
+def questionsSize (o : OutMsg) : Nat :=
+  match writeQuestions OutPacket.new o.questions with
+  | .ok p => p.data.size
+  | _ => 12
+
+theorem toPackets_ne_err (o : OutMsg) : toPackets o ≠ .err := by
+  simp only [toPackets]
+  split
+  · rename_i h; exact absurd h (writeQuestions_ne_err _ _)
+  · simp
+  · split
+    · rename_i h; exact absurd h (writeAnswers_ne_err _ _ _ _)
+    · simp
+    · split
+      · rename_i h; exact absurd h (writeAuthorities_ne_err _ _ _ _)
+      · simp
+      · exact writeAdditionals_ne_err _ _ _ _
+
+theorem toPackets_ne_panic (o : OutMsg) (h : MsgOK o) : toPackets o ≠ .panic := by
+  simp only [toPackets]
+  split
+  · simp
+  · rename_i h'; exact absurd h' (writeQuestions_ne_panic _ _ h.1)
+  · rename_i p0 h0
+    have s0 := writeQuestions_ok _ _ _ h0
+    split
+    · simp
+    · rename_i h'; exact absurd h' (writeAnswers_ne_panic _ _ _ _ h.2.1)
+    · rename_i p1 anc an h1
+      have s1 := (writeAnswers_ok _ _ _ _ _ _ _ h1).1
+      split
+      · simp
+      · rename_i h'; exact absurd h' (writeAuthorities_ne_panic _ _ _ _ h.2.2.1)
+      · rename_i p2 auc au h2
+        have s2 := (writeAuthorities_ok _ _ _ _ _ _ _ h2).1
+        apply writeAdditionals_ne_panic _ _ _ _ h.2.2.2
+        simp only []
+        simp at s0
+        omega
+
+theorem toPackets_ok (o : OutMsg) (ps : List Packet) (h : toPackets o = .ok ps) :
+    (∃ init last, ps = init ++ [last] ∧
+      (∀ p ∈ init, PktOK o (wireId o) (max MAX_MSG_ABSOLUTE (questionsSize o)) true p) ∧
+      PktOK o (wireId o) (max MAX_MSG_ABSOLUTE (questionsSize o)) false last) ∧
+    ps.flatMap (·.ghost.qs) = o.questions ∧
+    (ps.flatMap (·.ghost.an)).Sublist o.answers ∧
+    (ps.flatMap (·.ghost.au)).Sublist o.authorities ∧
+    (ps.flatMap (·.ghost.ad)).Sublist o.additionals := by
+  simp only [toPackets] at h
+  split at h
+  · simp at h
+  · simp at h
+  · rename_i p0 h0
+    have s0 := writeQuestions_ok _ _ _ h0
+    have hq : questionsSize o = p0.data.size := by simp [questionsSize, h0]
+    split at h
+    · simp at h
+    · simp at h
+    · rename_i p1 anc an h1
+      obtain ⟨a1, a2, a3, sa, a4, a5⟩ := writeAnswers_ok _ _ _ _ _ _ _ h1
+      split at h
+      · simp at h
+      · simp at h
+      · rename_i p2 auc au h2
+        obtain ⟨b1, b2, b3, sb, b4, b5⟩ := writeAuthorities_ok _ _ _ _ _ _ _ h2
+        have hB : MAX_MSG_ABSOLUTE ≤ max MAX_MSG_ABSOLUTE (questionsSize o) := Nat.le_max_left _ _
+        have hp0 : p0.data.size ≤ max MAX_MSG_ABSOLUTE (questionsSize o) := by rw [hq]; exact Nat.le_max_right _ _
+        constructor
+        · refine writeAdditionals_ok o _ _ _ _ ps hB h ⟨?_, ?_, ?_, ?_, ?_, rfl⟩ (by simp)
+          · simp only []; simp at s0; omega
+          · exact b2 _ hB (a2 _ hB hp0)
+          · simp
+          · simp only []; simp at a3; omega
+          · simp only []; simp at b3; omega
+        · obtain ⟨g1, g2, g3, s, g4, g5⟩ := writeAdditionals_ghost _ _ _ _ _ h
+          simp only [List.flatMap_nil, List.nil_append] at g1 g2 g3 g4
+          refine ⟨g1, ?_, ?_, ?_⟩
+          · rw [g2, a4]; simpa using a5
+          · rw [g3, b4]; simpa using b5
+          · rw [g4]; simpa using g5
+
 end Mdns.Enc
